@@ -102,9 +102,34 @@ TRAVERSAL = [
 ]
 
 
+def long_with_extension(rng) -> bytes:
+    """an over-long name (256..400 bytes) whose last extension (<= 16 bytes with its dot) carries control / reserved bytes,
+    dots or spaces: whatever a sanitiser does when it shortens a name, the tail must come out clean as well"""
+    dirty = [0x00, 0x01, 0x1f, 0x7f, 0x3a, 0x2a, 0x3f, 0x22, 0x3c, 0x3e, 0x7c, 0x5c, 0x20, 0x2e, 0x80, 0xff]
+    ext_len = rng.randint(1, 15)
+    ext = bytearray(rng.choice([0x61, 0x62, 0x7a, 0x31]) for _ in range(ext_len))
+    for _ in range(rng.randint(1, 3)):
+        ext[rng.randrange(ext_len)] = rng.choice(dirty)
+    if ext[0] == 0x2e:
+        ext[0] = 0x78
+    total = rng.choice([256, 257, 260, 271, 272, 300, 400])
+    stem_len = max(1, total - 1 - ext_len)
+    stem = bytearray(rng.choice([0x61, 0x5f, 0x2d]) for _ in range(stem_len))
+    if rng.random() < 0.3:
+        stem[rng.randrange(stem_len)] = 0x2e          # an earlier dot: only the last extension counts
+    prefix = rng.choice([b"", b"", b"dir/", b"../"])
+    return prefix + bytes(stem) + b"." + bytes(ext)
+
+
+LONG_EXT_FIXED = [b"a" * 260 + b"." + e for e in (b"p\x01f", b"t:t", b"a|b", b"x\x7fy", b'q"q', b"a b", b"\x00z", b"<>", b"*", b"?\x1f",
+                                                      b"tar.g\x02", b"e" * 14 + b":")] + \
+                 [b"a" * 300 + b".." + b"\x01", b"a" * 255 + b".\x7f", b"a" * 254 + b".p|", b"x/" + b"a" * 270 + b".a\\b", b"a" * 399 + b".|"]
+
+
 def generate(ctx, budget):
     rng = ctx.rng
     cases = []
+    long_ext = LONG_EXT_FIXED + [long_with_extension(rng) for _ in range(60 if ctx.tier == "quick" else 1500)]
     one = [bytes([b]) for b in range(256)]
     if ctx.blocks_ok:
         # the extracted source blocks are cheap to call: every 1- and 2-byte name in the thorough tier, all 1-byte ones
@@ -114,11 +139,11 @@ def generate(ctx, budget):
         else:
             special = [0x00, 0x01, 0x1f, 0x20, 0x22, 0x2a, 0x2e, 0x2f, 0x3a, 0x3c, 0x3e, 0x3f, 0x5c, 0x5f, 0x61, 0x7c, 0x7e, 0x7f, 0x80, 0xff]
             twos = [bytes([a, b]) for a in special for b in range(256)] + [bytes([a, b]) for a in range(256) for b in special]
-        names = one + twos + TRAVERSAL
+        names = one + twos + TRAVERSAL + long_ext
         for i in range(0, len(names), 64):
             cases.append(Case(ops=[f"nm {n.hex() or '-'}" for n in names[i:i + 64]], tag="extracted-exhaustive"))
     # end-to-end: really create the file / really store the chunk
-    e2e = list(one) + list(TRAVERSAL)
+    e2e = list(one) + list(TRAVERSAL) + long_ext[:len(LONG_EXT_FIXED) + (20 if ctx.tier == "quick" else 200)]
     n_random = max(0, budget - len(e2e))
     alphabet = [0x2e, 0x2f, 0x5c, 0x2e, 0x2f, 0x61, 0x62, 0x3a, 0x2a, 0x00, 0x01, 0x1f, 0x7f, 0x80, 0xff, 0x20, 0x7c, 0x22]
     for _ in range(n_random):
@@ -171,7 +196,8 @@ def spec() -> Spec:
         budget={"quick": 420, "thorough": 6000},
         rule="names: every 1-byte name end-to-end (file really created by `eph fetch` into a scratch directory, chunk really stored by a "
              "Node); every 1- and 2-byte name (quick: 2-byte names with at least one boundary byte) through the sanitising source blocks "
-             "extracted from the working tree; traversal/separator/control/reserved/dots/long/non-UTF-8 corpus; random mixes; dir/name "
+             "extracted from the working tree; traversal/separator/control/reserved/dots/long/non-UTF-8 corpus; 256-400-byte names whose last extension carries control/reserved "
+             "bytes, dots or spaces; random mixes; dir/name "
              "joins. distinct = sha256 of the op list; non-trivial = some name was altered or rejected",
         trusted_base=["std::filesystem::path (filename, operator/=, parent_path) and std::iscntrl as modelled",
                       "fake local control daemon (forked child of the harness) serving a fixed payload"],
